@@ -1,9 +1,10 @@
 """C09 concretiser (families I/K): the real FileStorage opened with missing / cut-short / stale index
 files and read-only, compared with a full scan.
-Bound: 3 histories (incl. one ending in empty transactions and one with a pack); index files saved at
+Bound: 4 histories (incl. one of empty transactions only, one with data then trailing empty transactions, and one
+with a pack); index files saved at
 every earlier close point (also before the pack); every truncation length of each saved index (all
 bytes for files <= 400 bytes, else 60 sampled); read-only opens of 3 tail states (clean, voted-unfinished,
-torn) with directory snapshot before/after and every mutator called."""
+torn) with directory snapshot before/after and every mutator called; read-only open of a missing data file."""
 import logging
 import os
 import shutil
@@ -71,6 +72,9 @@ SCRIPTS = [
      ('commit', [(p64(1), b'c' * 25)]), ('commit', [(p64(2), b'd')]), ('close',),
      ('commit', [(p64(0x20001), b'e' * 10)])],
     [('commit', []), ('commit', []), ('commit', []), ('commit', [])],
+    # data, then a trailing transaction WITHOUT data records (its tid is the last tid of the file)
+    [('commit', [(p64(1), b'a' * 20)]), ('commit', [(p64(2), b'b' * 20)]), ('commit', []), ('close',),
+     ('commit', [(p64(1), b'c' * 20)]), ('commit', []), ('commit', [])],
     [('commit', [(p64(1), b'a' * 40)]), ('commit', [(p64(1), b'b' * 40)]), ('commit', [(p64(2), b'x' * 90)]),
      ('close',), ('commit', [(p64(1), b'c' * 40)]), ('pack',), ('commit', [(p64(3), b'after pack' * 9)]),
      ('commit', [(p64(1), b'again' * 13)])],
@@ -122,6 +126,40 @@ def search(func, candidate, seed, tier, obligation=''):
                 return fail({'script': si, 'leftover': 'index_tmp/pack/old files'}, 'same state', 'differs', cases)
         finally:
             shutil.rmtree(d, ignore_errors=True)
+    # a read-only open of a data file that is NOT there (e.g. the window between the two renames of a pack) creates
+    # nothing and shows nothing: it is refused, and the directory stays byte-identical
+    d = tempfile.mkdtemp(prefix='c09miss-')
+    try:
+        path = os.path.join(d, 'Data.fs')
+        w = H.FileStorage(path, create=True)
+        t = H.Txn()
+        w.tpc_begin(t)
+        w.store(p64(1), z64, b'data', '', t)
+        w.tpc_vote(t)
+        w.tpc_finish(t)
+        w.close()
+        os.rename(path, path + '.old')
+        for with_lock in (True, False):
+            if not with_lock and os.path.exists(path + '.lock'):
+                os.remove(path + '.lock')
+            before = {n: open(os.path.join(d, n), 'rb').read() for n in sorted(os.listdir(d))}
+            cases += 1
+            inp = {'read_only_open_of': 'a missing Data.fs (side files present: %s)' % sorted(before)}
+            try:
+                ro = H.FileStorage(path, read_only=True)
+                n_objects = len(ro)
+                ro.close()
+                opened = True
+            except Exception:  # noqa
+                opened = False
+            after = {n: open(os.path.join(d, n), 'rb').read() for n in sorted(os.listdir(d))}
+            if after != before:
+                return fail(inp, 'a read-only open modifies no file',
+                            'files now: %r (before: %r)%s' % (sorted(after), sorted(before),
+                                                             '; opened showing %d objects' % n_objects if opened else ''),
+                            cases)
+    finally:
+        shutil.rmtree(d, ignore_errors=True)
     # read-only opens modify nothing and refuse every write
     for tail in ('clean', 'voted-unfinished', 'torn'):
         d = tempfile.mkdtemp(prefix='c09ro-')
